@@ -26,7 +26,7 @@ from .tlc import printed_json, require_actions, run_tlc
 
 ALL_UN = ["addc", "mulc", "sqrt"]
 ALL_BIN = ["add", "sub", "mul", "max"]
-ALL_BUILDERS = ["list", "dict", "yml_list", "yml_dict", "csv_list", "csv_dict"]
+ALL_BUILDERS = ["list", "dict", "yml_list", "yml_dict", "csv_list", "csv_dict", "df_perm"]
 RUN_ACTIONS = ["Construct", "SetFree", "Update", "Arrays", "Copy", "SaveLoad"]
 
 
@@ -156,6 +156,15 @@ class Real:
             save_parameters(q, f, format_name="csv")
             self.p = load_parameters(f, format_name="csv")
             os.unlink(f)
+        elif builder == "df_perm":
+            # a table whose rows were re-ordered by the user (sort / reverse / sample keep the index labels): rows are positional
+            saved = self.order
+            self.order = list(reversed(saved))
+            try:
+                q = Parameters.from_list(self._list_spec(False))
+            finally:
+                self.order = saved
+            self.p = Parameters.from_dataframe(q.to_dataframe().iloc[::-1])
         else:
             raise MachineryError(f"unknown builder {builder}")
 
